@@ -18,7 +18,7 @@ def srcJson (fs : Files) (rootData : Option Json) (src : String) : Option Json :
   if src = "" then rootData else (fs.find? (·.1 = src)).map (·.2)
 
 /-- the nodes a step makes necessary: the walked document, and the target object with its subtree -/
-def needed (fs : Files) (rootData : Option Json) (cx : Cx) (n : CNode) : List CNode × List Cx :=
+def needed (fs : Files) (rootData : Option Json) (tabs : Tabs) (cx : Cx) (n : CNode) : List CNode × List Cx :=
   match n.ref with
   | none => ([], [])
   | some t =>
@@ -29,7 +29,7 @@ def needed (fs : Files) (rootData : Option Json) (cx : Cx) (n : CNode) : List CN
          | none => []
        | none => []
     let docCx := match dl with | some d => [⟨some d, some d⟩] | none => []
-    match stepGo fs rootData cx t n.kind with
+    match stepGo fs rootData tabs cx t n.kind with
     | .node cont home src ptr typed _ =>
       (docNodes ++
       (match (srcJson fs rootData src).bind (fun j => rawAt j ptr) with
@@ -41,15 +41,15 @@ def needed (fs : Files) (rootData : Option Json) (cx : Cx) (n : CNode) : List CN
 def dedup [BEq α] (l : List α) : List α := l.foldl (fun acc x => if acc.contains x then acc else acc ++ [x]) []
 
 /-- closure of objects and contexts: every reference object is evaluated in every context that occurs -/
-def close (fs : Files) (rootData : Option Json) : Nat → List CNode → List Cx → List CNode × List Cx
+def close (fs : Files) (rootData : Option Json) (tabs : Tabs) : Nat → List CNode → List Cx → List CNode × List Cx
   | 0, ns, cxs => (ns, cxs)
   | f + 1, ns, cxs =>
     let (ns', cxs') := ns.foldl (fun (acc : List CNode × List Cx) n =>
       if n.ref.isNone then acc else
       cxs.foldl (fun (acc : List CNode × List Cx) cx =>
-        let (nn, nc) := needed fs rootData cx n
+        let (nn, nc) := needed fs rootData tabs cx n
         (addNodes acc.1 nn, dedup (acc.2 ++ nc))) acc) (ns, cxs)
-    if ns'.length = ns.length && cxs'.length = cxs.length then (ns, cxs) else close fs rootData f ns' cxs'
+    if ns'.length = ns.length && cxs'.length = cxs.length then (ns, cxs) else close fs rootData tabs f ns' cxs'
 
 structure Built where
   nodes : List CNode
@@ -65,20 +65,19 @@ def findObj (nodes : List CNode) (home : Cx) (src : String) (ptr : List String) 
   let i := nodes.findIdx (fun m => m.cx == home && m.src == src && m.ptr == ptr && m.kind == k && m.copy == cp)
   if i < nodes.length then some i else none
 
-def build (fs : Files) (rootData : Option Json) (rootCx : Cx) (rootSrc : String) (rootJ : Json) : Built :=
-  let (nodes0, cxs) := close fs rootData 24 (enumDoc rootCx rootSrc rootJ) [rootCx]
-  -- a resolver works on a local copy of a target that is itself a reference (not for path items)
-  let nodes := nodes0 ++ (nodes0.filter (fun n => n.ref.isSome && n.kind != .pathItem)).map (fun n => { n with copy := true })
+def build (fs : Files) (rootData : Option Json) (tabs : Tabs) (rootCx : Cx) (rootSrc : String) (rootJ : Json) : Built :=
+  let (nodes0, cxs) := close fs rootData tabs 24 (enumDoc rootCx rootSrc rootJ) [rootCx]
+  -- a resolver works on a local copy of a target that is itself a reference
+  let nodes := nodes0 ++ (nodes0.filter (fun n => n.ref.isSome)).map (fun n => { n with copy := true })
   let texts := dedup (nodes.filterMap (·.ref))
   let table : List Node := nodes.map (fun m =>
       { kind := m.kind, ref := m.ref.bind (idxOf texts),
         kids := m.kids.filterMap (fun (p, k) => findObj nodes m.cx m.src p k false),
-        skipped := m.skipped.filterMap (fun (p, k) => findObj nodes m.cx m.src p k false),
         home := (idxOf cxs m.cx).getD 0,
         orig := if m.copy then findObj nodes m.cx m.src m.ptr m.kind false else none })
   let step (l : Loc) (t : Text) (k : Kind) : Option StepR :=
     match cxs[l]?, texts[t]? with
-    | some c, some tx => some (stepGo fs rootData c tx k)
+    | some c, some tx => some (stepGo fs rootData tabs c tx k)
     | _, _ => none
   let w : World := {
     nodes := table,
@@ -88,7 +87,7 @@ def build (fs : Files) (rootData : Option Json) (rootCx : Cx) (rootSrc : String)
           let dj := match c.doc with | some d => fetch fs d | none => rootData
           let src := match c.doc with | some d => storeKey d | none => ""
           match dj with
-          | some dj => ((docChildren dj).filter (·.walked)).filterMap (fun ch => findObj nodes c src ch.toks ch.kind false)
+          | some dj => (docChildren dj).filterMap (fun ch => findObj nodes c src ch.toks ch.kind false)
           | none => []
         else []
       | none => [],
@@ -97,20 +96,23 @@ def build (fs : Files) (rootData : Option Json) (rootCx : Cx) (rootSrc : String)
       | _, _ => none,
     target := fun l t k => match step l t k with
       | some (.node cont home src ptr _ _) => (idxOf cxs cont).bind (fun ci =>
-          match (if k == .pathItem then none else findObj nodes home src ptr k true) with
+          match findObj nodes home src ptr k true with
           | some ni => some (ci, ni)
           | none => (findObj nodes home src ptr k false).map (fun ni => (ci, ni)))
       | _ => none,
-    rewalk := fun _ t k => match texts[t]? with
-      | some tx => tx.contains '#' && k != .pathItem
+    rewalk := fun _ t _ => match texts[t]? with
+      | some tx => tx.contains '#'
       | none => false,
-    crashes := fun l t k => match step l t k with
-      | some .panicNil => true
-      | _ => false,
     emptyTarget := fun l t k => match step l t k with
       | some .empty => true
       | _ => false }
   { nodes := nodes, cxs := cxs, texts := texts, world := w }
+
+/-- positions of an object that are reference-capable by type but not walked -/
+def skippedOf (b : Built) (i : Nat) : List Nat :=
+  match b.nodes[i]? with
+  | some m => m.skipped.filterMap (fun (p, k) => findObj b.nodes m.cx m.src p k false)
+  | none => []
 
 /-- reference objects reachable in the loaded object graph, with the value each was given -/
 def reach (b : Built) (s : St) : Nat → List Obj → List Obj → List (String × Option Json) → List (String × Option Json)
@@ -123,7 +125,7 @@ def reach (b : Built) (s : St) : Nat → List Obj → List Obj → List (String 
       | none => reach b s f rest (i :: seen) acc
       | some n =>
         match n.ref with
-        | none => reach b s f (rest ++ n.kids ++ n.skipped) (i :: seen) acc
+        | none => reach b s f (rest ++ n.kids ++ skippedOf b i) (i :: seen) acc
         | some _ =>
           let rid := ((b.nodes[i]?).map (·.rid)).getD "?"
           match s.get i with
@@ -154,79 +156,68 @@ def handle (j : Json) : Json :=
   let rootData : Option Json := if isData then some rootJ else none
   let rootCx : Cx := if isData then ⟨none, none⟩ else ⟨some root, some root⟩
   let rootSrc := if isData then "" else storeKey root
-  let b := build fs rootData rootCx rootSrc rootJ
+  let tabs := mkTabs fs rootData
+  let b := build fs rootData tabs rootCx rootSrc rootJ
   let w := b.world
-  let res := load w 400 0
-  let topIds : List Obj := (docChildren rootJ).filterMap (fun ch => findObj b.nodes rootCx rootSrc ch.toks ch.kind false)
-  let (outcome, refs, nback, foreign, nnil) := match res with
-    | .ok s => ("ok", reach b s 4000 topIds [] [], s.nback, s.foreign, s.nnil)
-    | .err fg => ("err", [], 0, fg, 0)
-    | .panic fg => ("panic", [], 0, fg, 0)
-    | .outOfFuel => ("outOfFuel", [], 0, false, 0)
+  -- fuel: the bound of `load_terminates` ((#texts + 1) · (R + 1)); rank of an object = R − depth of its pointer
+  -- (the children of a value lie strictly deeper), R = the deepest pointer
+  let depthMax := b.nodes.foldl (fun m n => max m n.ptr.length) 0
+  let fuel := (b.texts.length + 1) * (depthMax + 1)
+  let res := load w fuel 0
+  let topIds : List Obj := (docAll rootJ).filterMap (fun ch => findObj b.nodes rootCx rootSrc ch.toks ch.kind false)
+  let (outcome, refs, nback, foreign, tclash, nnil, nskip, nempty) := match res with
+    | .ok s => ("ok", reach b s 4000 topIds [] [], s.nback, s.foreign, s.tclash, s.nnil, s.nskip, s.nempty)
+    | .err fl => ("err", [], 0, fl.foreign, fl.tclash, 0, 0, 0)
+    | .outOfFuel => ("outOfFuel", [], 0, false, false, 0, 0, 0)
   -- specification
-  let specRefs := specWalk fs rootData 4000
-    ((docChildren rootJ).map (fun c => ((if isData then none else some (storeKey root)), c.kind, c.j, c.toks.getLast?.getD ""))) (if isData then [] else [storeKey root]) []
+  let specRefs := specWalk fs rootData tabs 4000
+    ((specDocChildren rootJ).map (fun c => ((if isData then none else some (storeKey root)), c.kind, c.j, c.toks.getLast?.getD ""))) (if isData then [] else [storeKey root]) []
   let specOK := specRefs.all (·.2.isSome)
   -- exclusion classes
   let refNodes := b.nodes.filter (fun n => n.ref.isSome && !n.copy && n.nat)
-  let stepOf (n : CNode) : StepR := stepGo fs rootData n.cx (n.ref.getD "") n.kind   -- evaluated at home
+  -- one step of every reference, evaluated at home (computed once)
+  let stepsAtHome : List StepR := refNodes.map (fun n => stepGo fs rootData tabs n.cx (n.ref.getD "") n.kind)
+  let stepOf (n : CNode) : StepR :=
+    let i := refNodes.findIdx (fun m => m.same n)
+    stepsAtHome[i]?.getD .fail
   let stepKey (r : StepR) : String := match r with
     | .node cx _ src ptr _ _ => s!"{repr cx}|{src}|{ptr}"
-    | .fail => "fail" | .panicNil => "nil" | .empty => "empty"
-  let textNotGlobal := refNodes.any (fun a => refNodes.any (fun c =>
-    a.ref == c.ref && a.kind == c.kind && stepKey (stepOf a) != stepKey (stepOf c)))
-  let kindClash := refNodes.any (fun a => refNodes.any (fun c => a.ref == c.ref && a.kind != c.kind))
-  -- a reference that sits at, or anywhere below, a position no resolver visits
-  let skippedRoots : List (Cx × String × List String) :=
-    b.nodes.flatMap (fun n => n.skipped.map (fun (p, _) => (n.cx, n.src, p))) ++
-    (b.cxs.filter (fun c => c.doc == c.path)).flatMap (fun c =>
-      let dj := match c.doc with | some d => fetch fs d | none => rootData
-      let src := match c.doc with | some d => storeKey d | none => ""
-      match dj with
-      | some dj => ((docChildren dj).filter (fun ch => !ch.walked)).map (fun ch => (c, src, ch.toks))
-      | none => [])
-  let unwalked := refNodes.any (fun n => skippedRoots.any (fun (c, s, p) => c == n.cx && s == n.src && p.isPrefixOf n.ptr))
+    | .fail => "fail" | .empty => "empty"
+  -- #29: the model's own flag — a callback fired for a reference whose one-step target differs from the visitor's
+  -- (`textsShared`: the static over-approximation, reported as a branch only)
+  let keyed : List (CNode × String) := (refNodes.zip stepsAtHome).map (fun (n, r) => (n, stepKey r))
+  let textsShared := keyed.any (fun (a, ka) => keyed.any (fun (c, kc) =>
+    a.ref == c.ref && a.kind == c.kind && ka != kc))
+  let textNotGlobal := tclash
+  -- a04fe6c: a callback that meets a value of another kind returns; when the load then succeeds the
+  -- component of that callback may be left without value although its reference is of the wrong kind
+  let kindClash := outcome == "ok" && nskip > 0
   let targetIsRef (n : CNode) : Bool := match stepOf n with
     | .node _ home src ptr _ _ => b.nodes.any (fun m => m.cx == home && m.src == src && m.ptr == ptr && m.kind == n.kind && m.ref.isSome && !m.copy)
     | _ => false
-  let degenerate := refNodes.any (fun n =>
-    let t := n.ref.getD ""
-    t.endsWith "#" ||
-    (match res with
-     | .ok s => (match findObj b.nodes n.cx n.src n.ptr n.kind false with
-        | some i => (s.get i).isNone && targetIsRef n && n.kind != .pathItem
-        | none => false)
-     | _ => false))
-  let pathItemChain := refNodes.any (fun n => n.kind == .pathItem && targetIsRef n)
+  -- #34: `unvisitRef` with a nil value (a pure `$ref` cycle) or a swallowed `errMUST…` (the fragment `#`) — the
+  -- events that, with `nskip`, make up the hypothesis `Clean` of the completeness theorem
+  let degenerate := outcome == "ok" && (nnil > 0 || nempty > 0)
   let specStepKey (n : CNode) : String :=
     match stepSpec fs rootData (if n.src = "" then none else some n.src) (n.ref.getD "") with
     | some (file, toks, v) =>
-      let docj := match file with | some u => fetch fs u | none => rootData
       let kindOK := match toks with
         | [] => true
-        | first :: _ => if knownTop.contains first then (docj.bind (fun d => typedKind d toks)) == some n.kind else true
+        | first :: _ => if knownTop.contains first then tabs.specKind file toks == some n.kind else true
       if isObj v && kindOK then s!"{file.getD ""}|{toks}" else "fail"
     | none => "fail"
   let goStepKey (n : CNode) : String := match stepOf n with
     | .node _ _ src ptr _ _ => s!"{src}|{ptr}"
-    | .fail => "fail" | .panicNil => "nil" | .empty => "empty"
+    | .fail => "fail" | .empty => "empty"
   let disagree := refNodes.filter (fun n => goStepKey n != specStepKey n)
-  let fallback := disagree.any (fun n => match stepOf n with
-    | .node cx _ src _ false _ => (cx.doc.map storeKey).getD "" != src && !((n.ref.getD "").startsWith "#")
-    | _ => false)
-  let nilField := refNodes.any (fun n => match stepOf n with | .panicNil => true | _ => false)
   let internalInElem := disagree.any (fun n => (n.ref.getD "").startsWith "#" && n.cx.doc != n.cx.path)
   let otherDisagree := disagree.any (fun n =>
-    !(match stepOf n with | .panicNil => true | .empty => true | _ => false) &&
-    !((n.ref.getD "").startsWith "#" && n.cx.doc != n.cx.path) &&
-    !(match stepOf n with
-      | .node cx _ src _ false _ => (cx.doc.map storeKey).getD "" != src && !((n.ref.getD "").startsWith "#")
-      | _ => false))
+    !(match stepOf n with | .empty => true | _ => false) &&
+    !((n.ref.getD "").startsWith "#" && n.cx.doc != n.cx.path))
   let excl :=
-    (if textNotGlobal then ["TextNotGlobal"] else []) ++ (if kindClash then ["KindClash"] else []) ++
-    (if unwalked then ["UnwalkedPosition"] else []) ++ (if degenerate then ["DegenerateTarget"] else []) ++
-    (if pathItemChain then ["PathItemChain"] else []) ++ (if fallback then ["FallbackReadsReferrer"] else []) ++
-    (if nilField then ["NilFieldTarget"] else []) ++ (if internalInElem then ["InternalRefInElementFile"] else []) ++
+    (if textNotGlobal then ["TextNotGlobal"] else []) ++ (if kindClash then ["KindClashUnresolved"] else []) ++
+    (if degenerate then ["DegenerateTarget"] else []) ++
+    (if internalInElem then ["InternalRefInElementFile"] else []) ++
     (if foreign then ["ForeignContext"] else []) ++
     (if otherDisagree then ["StepDisagree"] else [])
   -- branches
@@ -238,7 +229,10 @@ def handle (j : Json) : Json :=
     (if texts.any (fun t => !(t.contains '#')) then ["ref.wholefile"] else []) ++
     (if refNodes.any targetIsRef then ["chain"] else []) ++
     (if nback > 0 then ["backtrack"] else []) ++
+    (if textsShared then ["text.sharedByTwoTargets"] else []) ++
     (if nnil > 0 then ["unvisit.nil"] else []) ++
+    (if nskip > 0 then ["callback.otherKind"] else []) ++
+    (if nempty > 0 then ["empty.swallowed"] else []) ++
     (if b.cxs.length > 1 then ["ctx.many"] else []) ++
     (if b.cxs.any (fun c => c.doc != c.path) then ["ctx.element"] else []) ++
     (if refNodes.any isUntyped then ["untyped.codec"] else []) ++
@@ -252,6 +246,7 @@ def handle (j : Json) : Json :=
     ("model", jobj [("outcome", Json.str outcome), ("refs", groupRefs refs)]),
     ("spec", jobj [("ok", Json.bool specOK), ("refs", Json.mkObj (specRefs.map (fun (r, v) => (r, v.getD Json.null))))]),
     ("excl", jstrs excl),
+    ("fuel", Json.num (JsonNumber.fromNat fuel)),
     ("dbg", jstrs (disagree.map (fun n => s!"{n.ref.getD ""} @{n.src} go={goStepKey n} spec={specStepKey n}"))),
     ("branches", jstrs branches)]
 
